@@ -3,6 +3,8 @@ import IstioModel.C07.Host
 import IstioModel.C07.Vis
 import IstioModel.C07.Scope
 import IstioModel.C07.DR
+import IstioModel.C07.Validate
+import IstioModel.C07.Xds
 
 /-! Line-protocol driver for C07 (streams `host`, `vis`, `scope`). See harness/c07. -/
 namespace IstioModel.C07
@@ -54,6 +56,7 @@ structure DState where
   sev : Option Sev := none    -- MeshConfig.serviceEntryVisibility (policies)
   nsLabels : List (String × List (String × String)) := []
   autoVis : List String := []  -- ids of the services whose visibility the policies resolve
+  ses : List (String × List String) := []   -- stream `sev`: ServiceEntries (namespace, hosts)
   mesh : Mesh := {}
   raw : List Svc := []        -- as declared
   built : Bool := false
@@ -78,18 +81,24 @@ def decDests (t : String) : List Dest :=
 def decHTTP (t : String) : List HttpRoute :=
   if t == "-" then [] else (t.splitOn ";").map fun it =>
     if it.startsWith "@" then
-      -- a delegating route: @<namespace or ~>|<name>
+      -- a delegating route without a match: @<namespace or ~>|<name>
       let (a, b) := cut (it.drop 1).toString "|"
       { srcNs := [], dests := [], delegate := some (dec a, dec b) }
     else
       let (a, b) := cut it "^"
-      { srcNs := decItems a "|", dests := decDests b }
+      if b.startsWith "@" then
+        -- a delegating route with a match: <srcs>^@<namespace or ~>|<name>
+        let (x, y) := cut (b.drop 1).toString "|"
+        { srcNs := decItems a "|", dests := [], delegate := some (dec x, dec y) }
+      else { srcNs := decItems a "|", dests := decDests b }
 
 def decEgress (t : String) : List Listener :=
   if t == "-" then [] else (t.splitOn ";").map fun it =>
     let (a, b) := cut it "^"
-    let (p, pr) := cut a "|"
-    { port := p.toNat!, httpProxy := dec pr == "HTTP_PROXY", hosts := decItems b "|" }
+    -- port|protocol[|bind]  (a bind / unix domain socket path does not influence the scope)
+    let f := a.splitOn "|"
+    { port := (f.getD 0 "0").toNat!, httpProxy := dec (f.getD 1 "~") == "HTTP_PROXY",
+      proto := dec (f.getD 1 "~"), bind := dec (f.getD 2 "~"), hosts := decItems b "|" }
 
 def decLabels (t : String) : Option (List (String × String)) :=
   if t == "nil" then none
@@ -154,15 +163,28 @@ def showScope (d : DState) (name : String) (ls : List ILW) (services : List Svc)
     "scope=" ++ enc name,
     "S=" ++ showSvcs services true,
     "L=" ++ ";".intercalate lst,
-    "D=" ++ showDRs (selectDestinationRules d.mesh d.drIdx cfgNs services)]
+    "D=" ++ showDRs (selectDestinationRules d.mesh d.drIdx cfgNs services),
+    -- `servicesByHostname`: one lookup per hostname of the scope (`servicesByHostname_is_index`)
+    "I=" ++ showSvcs ((sortDedup (services.map (·.hostname))).filterMap fun h => services.find? (·.hostname == h)) false]
 
 def decSevVis : String → SEVis
   | "n" => .ns | "x" => .none | _ => .pub   -- "u" (UNSPECIFIED) and "p": Public
 
+def decSelOp : String → SelOp
+  | "in" => .isIn | "notin" => .notIn | "ex" => .ex | _ => .nex
+
 def decSevRule (t : String) : SevRule :=
   if t == "?" || t == "!" then none
-  else if t == "-" then some []
-  else some ((t.splitOn "+").map fun it => let (a, b) := cut it "="; (dec a, dec b))
+  else if t == "-" then some {}
+  else
+    let items := t.splitOn "+"
+    let exprs := items.filterMap fun it =>
+      match it.splitOn ":" with
+      | [k, op, vs] => some { key := dec k, op := decSelOp op, values := if vs == "" then [] else vs.splitOn "." : SelExpr }
+      | _ => none
+    let labels := items.filterMap fun it =>
+      if (it.splitOn ":").length == 3 then none else (let (a, b) := cut it "="; some (dec a, dec b))
+    some { labels := labels, exprs := exprs }
 
 def decSev (t : String) : Sev :=
   match t.splitOn ";" with
@@ -200,6 +222,40 @@ def keyAddr (raw : List Svc) (h ns : String) : String :=
   | some i => "10.9." ++ toString (i / 200) ++ "." ++ toString (i % 200 + 1)
   | none => ""
 
+/-- the `eds` query -/
+def edsLine (d : DState) (ns lbl subs : String) : String :=
+  -- EDS for outbound|port|[subset]|h of every hostname of the mesh: answered from the scope's service only
+  -- (`servicesByHostname`); every key has an unlabelled workload and one labelled version=shared; a subset
+  -- (labels version=<its name>) filters only when the DestinationRule the proxy gets for h declares it
+  let cfgNs := dec ns
+  let labels := (decLabels lbl).getD []
+  let sc := pickSidecar d.mesh d.scs cfgNs labels
+  let services := scopeServices d.flags d.mesh d.svcs d.vss sc cfgNs
+  let drs := selectDestinationRules d.mesh d.drIdx cfgNs services
+  let hosts := sortDedup (d.svcs.map (·.hostname))
+  let answers := hosts.flatMap fun h =>
+    match services.find? (·.hostname == h) with
+    | none => []
+    | some w =>
+      let picked := match alookup w.hostname drs with
+        | some cs => pickDR cfgNs labels cs none
+        | none => none
+      let plain := keyAddr d.raw h w.ns
+      let labelled := "10.8." ++ (plain.drop 5).toString
+      [80, 81, 8080, 9090, 8443].flatMap fun port =>
+        if w.ports.any (·.num == port) then
+          ("" :: decItems subs ",").filterMap fun sub =>
+            let declared := match picked with
+              | some c => sub != "" && c.subsets.any (·.name == sub)
+              | none => false
+            let addrs :=
+              if !declared then some (labelled ++ "+" ++ plain)
+              else if sub == "shared" then some labelled
+              else none
+            addrs.map fun a => h ++ ":" ++ toString port ++ (if sub == "" then "" else ":" ++ sub) ++ "=" ++ a
+        else []
+  "E=" ++ encList (answers.mergeSort (fun a b => !(b < a)))
+
 def query (d : DState) (toks : List String) : String :=
   match toks with
   | ["exported", ns] => encList ((servicesExportedToNamespace d.mesh d.svcs (dec ns)).map (·.id))
@@ -229,11 +285,16 @@ def query (d : DState) (toks : List String) : String :=
   | ["vsgw", ns, gw] =>
     -- PushContext.VirtualServicesForGateway(ns, gw): the VirtualService selection of a Router
     showVSs (gatewayVirtualServices d.mesh d.vss (dec ns) (dec gw))
+  | ["drq", ns, h] =>
+    let l := destinationRuleForHost d.mesh d.svcs d.drIdx (dec ns) (dec h)
+    if l.isEmpty then "-" else showDRs [(dec h, l)]
   | ["merged"] =>
     -- the merged VirtualServices (delegates folded in): name > destination hosts
     let items := d.vss.map fun v =>
       let hosts := sortDedup ((v.http.flatMap (·.dests)).map (·.host) ++ v.tcp.map (·.host))
-      enc (v.ns ++ "/" ++ v.name) ++ ">" ++ plus (hosts.map enc)
+      let routes := v.http.map fun r => if r.srcNs.isEmpty then "-" else "|".intercalate (r.srcNs.map enc)
+      enc (v.ns ++ "/" ++ v.name) ++ ">" ++ plus (hosts.map enc) ++ ">" ++
+        (if routes.isEmpty then "-" else ";".intercalate routes)
     let items := items.mergeSort (fun a b => !(b < a))
     if items.isEmpty then "-" else ",".intercalate items
   | ["xdsgw", ns] =>
@@ -241,18 +302,37 @@ def query (d : DState) (toks : List String) : String :=
     let cfgNs := dec ns
     let services := gatewayScopeServices d.aliasGuard d.mesh d.svcs cfgNs
     "C=" ++ encSet (clusterNames d cfgNs [("istio", "ingressgateway")] services)
-  | ["eds", ns, lbl] =>
-    -- EDS for outbound|port||h of every hostname of the mesh: answered from the scope's service only
+  | ["xdsgwf", ns, sc] =>
+    -- CDS of a Router proxy with PILOT_FILTER_GATEWAY_CLUSTER_CONFIG on (sc = PILOT_SCOPE_GATEWAY_TO_NAMESPACE):
+    -- the harness creates a Gateway `gw1` in every namespace with a VirtualService naming `gw1`
+    let cfgNs := dec ns
+    let nsScoped := tokBool sc
+    let gwNs := (d.vssRaw.filter fun v => v.gateways.contains "gw1").map (·.ns)
+    let gateways := ((if nsScoped then gwNs.filter (· == cfgNs) else gwNs).map (· ++ "/gw1")).eraseDups
+    let services := gatewayFilteredServices nsScoped d.vss gateways (gatewayScopeServices d.aliasGuard d.mesh d.svcs cfgNs)
+    "C=" ++ encSet (clusterNames d cfgNs [("istio", "ingressgateway")] services)
+  | ["lds", ns, lbl] =>
+    -- the outbound listener names of a sidecar (LDS), without the two virtual listeners
     let cfgNs := dec ns
     let sc := pickSidecar d.mesh d.scs cfgNs ((decLabels lbl).getD [])
-    let services := scopeServices d.flags d.mesh d.svcs d.vss sc cfgNs
-    let hosts := sortDedup (d.svcs.map (·.hostname))
-    let answers := hosts.flatMap fun h =>
-      match services.find? (·.hostname == h) with
+    let ls := (egressOf sc).map fun l => (some l, convertListener d.flags d.mesh d.svcs d.vss cfgNs l)
+    "L=" ++ encList (sortDedup (ls.flatMap fun (l, ilw) => listenerKeys d.raw l ilw))
+  | ["rds", ns, lbl] =>
+    -- the virtual host names of the port-named route configurations of a sidecar (RDS)
+    let cfgNs := dec ns
+    let sc := pickSidecar d.mesh d.scs cfgNs ((decLabels lbl).getD [])
+    let ls := (egressOf sc).map fun l => (some l, convertListener d.flags d.mesh d.svcs d.vss cfgNs l)
+    let keys := sortDedup (ls.flatMap fun (l, ilw) => listenerKeys d.raw l ilw)
+    let ports := (keys.filterMap fun k => if k.startsWith "0.0.0.0_" then (k.drop 8).toString.toNat? else none).eraseDups
+    let out := ports.flatMap fun port =>
+      match egressForRDS ls port with
+      | some (some l, ilw) => if l.httpProxy then [] else (rdsVhostNames cfgNs ilw port).map fun n => toString port ++ ">" ++ n
+      | some (none, ilw) => (rdsVhostNames cfgNs ilw port).map fun n => toString port ++ ">" ++ n
       | none => []
-      | some w => [80, 81, 8080, 9090, 8443].filterMap fun port =>
-          if w.ports.any (·.num == port) then some (h ++ ":" ++ toString port ++ "=" ++ keyAddr d.raw h w.ns) else none
-    "E=" ++ encList (answers.mergeSort (fun a b => !(b < a)))
+    "R=" ++ encList (sortDedup out)
+  | ["eds", ns, lbl] => edsLine d ns lbl "-"
+  | ["eds", ns, lbl, subs] => edsLine d ns lbl subs
+  | ["gw", ns, _w] => query d ["gw", ns]   -- a waypoint proxy gets the gateway default scope as well
   | ["gw", ns] =>
     let cfgNs := dec ns
     -- gateways always use the default scope computed for gateways (/repo 7a798fd: no longer the cached
@@ -273,7 +353,7 @@ def rebuild (d : DState) : DState :=
            svcs := resolveAliases (sortServices (d.raw.map fun s =>
              if d.autoVis.contains s.id then { s with vis := visibilityFor d.sev ((alookup s.ns d.nsLabels).getD []) } else s)),
            vss := sortVS (mergeVSs d.mesh d.vssRaw),
-           drIdx := setDestinationRules d.enhanced d.drGuard d.mesh d.drs }
+           drIdx := setDestinationRules d.enhanced d.drGuard d.mesh (d.drs.map resolveDRHost) }
 
 /-- drop the object an `update` / `delete` line names -/
 def dropObject (d : DState) (kind name ns : String) : DState :=
@@ -292,6 +372,10 @@ partial def stepD (d : DState) (toks : List String) : DState × String :=
        visGuard := flagOf rest "F" true, exactGuard := flagOf rest "X" true,
        aliasGuard := flagOf rest "A" true, drGuard := flagOf rest "D" true }, "ok")
   | ["h", n, m] => (d, hostLine (dec n) (dec m))
+  | ["ve", kind, ns, l] =>
+    -- admission validation of an exportTo list (ServiceEntry / VirtualService / DestinationRule [with selector])
+    (d, if validateExportTo (dec ns) (decItems l ",") (kind == "se") (kind == "drsel") then "1" else "0")
+  | ["vv", v] => (d, if visibilityValid (dec v) then "1" else "0")
   | ["mesh", root, ds, dv, dd, ap] =>
     ({ d with mesh := { rootNs := dec root, defSvc := decOptList ds, defVS := decOptList dv,
                         defDR := decOptList dd, applyToSidecars := tokBool ap } }, "ok")
@@ -299,6 +383,17 @@ partial def stepD (d : DState) (toks : List String) : DState × String :=
     ({ d with mesh := { rootNs := dec root, defSvc := decOptList ds, defVS := decOptList dv,
                         defDR := decOptList dd, applyToSidecars := tokBool ap },
               sev := if v.startsWith "v=" then some (decSev (v.drop 2).toString) else none }, "ok")
+  | ["sevcfg", v, _ap] =>
+    ({ d with sev := if v.startsWith "v=" then some (decSev (v.drop 2).toString) else none, ses := [], nsLabels := [] }, "ok")
+  | ["se", _name, ns, hosts] => ({ d with ses := d.ses ++ [(dec ns, decItems hosts ",")] }, "ok")
+  | ["sevq"] =>
+    -- every service of a ServiceEntry carries the visibility resolved for the namespace of the ServiceEntry
+    let items := d.ses.flatMap fun (ns, hosts) =>
+      let v := match visibilityFor d.sev ((alookup ns d.nsLabels).getD []) with
+        | .pub => "p" | .ns => "n" | .none => "x"
+      hosts.map fun h => enc h ++ "|" ++ enc ns ++ "|" ++ v
+    let items := items.mergeSort (fun a b => !(b < a))
+    (d, if items.isEmpty then "-" else ",".intercalate items)
   | ["nsl", ns, lbl] => ({ d with nsLabels := d.nsLabels ++ [(dec ns, (decLabels lbl).getD [])] }, "ok")
   | ["svc", id, h, ns, reg, ct, name, ports, ex, vis, res, attr, al] =>
     ({ d with raw := d.raw ++ [mkSvcD id h ns reg ct name ports ex vis res attr al none],
